@@ -207,7 +207,7 @@ impl LruOutboundAliasResolver {
         }
 
         let mut alias_value : u16 = (self.cache.len() + 1) as u16;
-        if alias_value > self.current_maximum_alias_value {
+        if self.cache.len() >= self.current_maximum_alias_value as usize {
             if let Some((_, recycled_alias)) = self.cache.peek_lru() {
                 alias_value = *recycled_alias;
             } else {
